@@ -66,6 +66,12 @@ func (codec *wsCodec) RemoteAddr() string {
 }
 
 func (codec *wsCodec) ReadMessage() (*jsonrpc2.Message, error) {
+	// The decoder can stop short of the end of the previous frame (it does
+	// not need the trailing newline): skip whatever is left of it, the next
+	// header is only found after that.
+	if err := codec.r.Discard(); err != nil {
+		return nil, err
+	}
 	_, err := codec.r.NextFrame()
 	if err != nil {
 		return nil, err
